@@ -304,3 +304,50 @@ func runDisplacePairs(c *CaseDesc, rng *rand.Rand) []string {
 	}
 	return append(out, "end")
 }
+
+// runDisplaceVariants emits some of the displaced variants of runDisplacePairs as cases of their own (so that the
+// model driver sees their lists: S4 correspondence and the order condition of the placement theorem); the displaced
+// provider is named in the case note
+func runDisplaceVariants(c *CaseDesc, rng *rand.Rand, max int) [][]string {
+	base := runCase(c)
+	sb := summarize(base, false)
+	if sb.bind != "bind ok" || len(sb.included) != len(c.Provs) {
+		return nil
+	}
+	src := downSources(c)
+	var out [][]string
+	for pi, p := range c.Provs[:len(c.Provs)-1] {
+		if p.Kind != "inj" || p.Cacheable || p.MustCache || p.Memoize || p.Singleton || p.NotCacheable || contains(p.Out, cTE) ||
+			p.Required || p.Desired || len(p.MustConsume)+len(p.Loose)+len(p.ConsOpt) > 0 || p.NonFinal || p.Cluster != 0 {
+			continue
+		}
+		ok := true
+		for _, t := range p.Out {
+			if src[t] != 1 || t == cI0 || t == cI1 {
+				ok = false
+			}
+		}
+		for _, t := range p.In {
+			if src[t] != 1 || t == cI0 || t == cI1 || t >= cError {
+				ok = false
+			}
+		}
+		if !ok {
+			continue
+		}
+		for j := 0; j < len(c.Provs)-1; j++ {
+			if j == pi || len(out) >= max || rng.Intn(2) != 0 {
+				continue
+			}
+			c2 := c.clone()
+			q := c2.Provs[pi]
+			q.Reorder = true
+			rest := append(append([]*ProvDesc{}, c2.Provs[:pi]...), c2.Provs[pi+1:]...)
+			c2.Provs = append(append(append([]*ProvDesc{}, rest[:j]...), q), rest[j:]...)
+			c2.N = c.N*100 + len(out)
+			c2.Note = fmt.Sprintf("displaced=%d", p.Idx)
+			out = append(out, runCase(c2))
+		}
+	}
+	return out
+}
